@@ -30,6 +30,7 @@ type c11Acc struct {
 type c11Out struct {
 	Tried    int      `json:"tried"`
 	Accepted []c11Acc `json:"accepted"`
+	Unstable [][]int  `json:"unstable"` // strings whose second evaluation (after all others) differs from the first
 	Pitch    [][]int  `json:"pitch"`  // NoteToPitch(n) bytes, n = 0..127
 	Octave   []int    `json:"octave"` // NoteToOctave(n)
 	Panics   []string `json:"panics"`
@@ -46,7 +47,7 @@ func bytesOf(s string) []int {
 func verifC11(t *testing.T) {
 	var in c11In
 	mustReadJSON(t, &in)
-	out := c11Out{Accepted: []c11Acc{}, Panics: []string{}}
+	out := c11Out{Accepted: []c11Acc{}, Panics: []string{}, Unstable: [][]int{}}
 	try := func(s string) {
 		defer func() {
 			if r := recover(); r != nil {
@@ -124,6 +125,33 @@ func verifC11(t *testing.T) {
 		pos := rng.Intn(len(base) + 1)
 		ext := append(append(append([]byte{}, base[:pos]...), byte(rng.Intn(256))), base[pos:]...)
 		try(string(ext))
+	}
+	// same string, same answer: every accepted string and every string of length <= 2 over the alphabet once more, after everything
+	// else has been through StringToNote
+	first := map[string]int{}
+	for _, a := range out.Accepted {
+		b := make([]byte, len(a.S))
+		for i, v := range a.S {
+			b[i] = byte(v)
+		}
+		first[string(b)] = a.N
+	}
+	again := func(s string) {
+		defer func() { recover() }()
+		n, err := StringToNote(s)
+		v, was := first[s]
+		if (err == nil) != was || (err == nil && int(n) != v) {
+			out.Unstable = append(out.Unstable, bytesOf(s))
+		}
+	}
+	for s := range first {
+		again(s)
+	}
+	for _, c := range alpha {
+		again(string([]byte{c}))
+		for _, d := range alpha {
+			again(string([]byte{c, d}))
+		}
 	}
 	for n := 0; n < 128; n++ {
 		out.Pitch = append(out.Pitch, bytesOf(NoteToPitch(byte(n))))
